@@ -16,19 +16,26 @@
              'non-group segment declaration (min 0, max unbounded)',
              'utf8.DecodeRune as transcribed in Base/Utf8.v; rune/segment counters and error message texts '
              'are not modelled'],
- 'assumptions': ['cfg_ok (edi_roundtrip, edi_elem_nodes, edi_full_roundtrip): the delimiters in use and the '
-                 'release character are non-empty, start with pairwise distinct ASCII bytes, none of those '
-                 'first bytes occurs at a later position of any of them (tail_clean; Example '
-                 'tail_clean_needed shows a configuration outside it losing a segment), and with LF as '
-                 'segment delimiter the release character does not end with CR',
+ 'assumptions': ['cfg_ok (edi_roundtrip, edi_elem_nodes, edi_full_roundtrip, unescape_escape): the '
+                 'delimiters in use and the release character are non-empty byte strings whose first rune '
+                 'utf8.DecodeRune decodes and is not U+FFFD (any valid UTF-8 string not starting with U+FFFD '
+                 'qualifies; ASCII first bytes are the corollaries *_ascii), their first bytes are pairwise '
+                 'distinct, none of those first bytes occurs at a later position of any of them (tail_clean; '
+                 'Example tail_clean_needed shows a configuration outside it losing a segment), and with LF '
+                 'as segment delimiter the release character does not end with CR',
                  'segx_ok: >= 1 element / repetition / component (exactly one where the delimiter is '
                  'absent); segment name non-empty; without a release character no data byte equals the first '
                  'byte of a delimiter; a CR before the delimiter and blank lines only where the CR/LF rules '
-                 'eat them (LF resp. CR/LF-only segment delimiter); with LF as segment delimiter the encoded '
-                 'segment does not end with CR; with a CR/LF-only segment delimiter the name has a non-CR/LF '
+                 'eat them (LF resp. CR/LF-only segment delimiter); with LF as segment delimiter the last '
+                 'value does not end with CR and, if it is empty, the delimiter standing before it does not '
+                 '(no_cr_end, a condition on the logical values; edi_roundtrip_enc keeps the more general '
+                 'condition on the encoding); with a CR/LF-only segment delimiter the name has a non-CR/LF '
                  'byte',
                  'the input (after ignore_crlf stripping, if configured) is edi_encode of the segments, '
-                 'hence ends with a segment delimiter (what follows the last one is dropped: DESIGN section '
-                 '6 F8, property C05)',
-                 'delimiters starting with a non-ASCII rune are outside the theorems (the harness oracle '
-                 'covers them: rune-wise encoder); segment delimiter non-empty (schema minLength 1)']}
+                 'hence ends with a segment delimiter; in general what follows the last terminator is '
+                 'dropped (edi_trailing_refuted = DESIGN section 6 F8; edi_tokens_cover accounts for every '
+                 'other byte of every input; edi_tokens_complete holds under the guard "the input is a '
+                 'sequence of terminated segments")',
+                 'segment delimiter non-empty (schema minLength 1)',
+                 'edi_tokens_cover / edi_tokens_complete / strip_crlf_spec need no cfg_ok: any configuration '
+                 'with non-empty segment and element delimiters']}
